@@ -13,8 +13,14 @@ var c06Exprs = []string{
 	"`[3, 1, 2]`", "sort(`[3, 1, 2]`)", "`{\"x\": [1]}`.x", "[a, b]", "{p: a, q: b}", "sort_by(a, &@)", "map(&@, a)", "values(b)", "keys(b)", "items(b)",
 	"group_by(c, &k)", "from_items(d)", "zip(a, a)", "not_null(a, b)", "a || b", "a && b", "max_by(c, &k)", "let $v = a in [$v, $v]", "b.*", "*", "join('-', a)",
 	"a[0]", "flatten_me[][]", "a | [0]", "min(a)", "max(a)", "sum(a)", "avg(a)", "a[?@ == `1`]", "c[*].k", "c[?k].k", "c[].k", "to_string(a)", "length(a)",
-	// selectors on the current node whose own sub-expressions are all literals
+}
+
+// c06Current: selectors on the current node whose own sub-expressions are all
+// literals (an analysis that looks only at an expression's children would call
+// them constant).
+var c06Current = []string{
 	"*[?`true`]", "*[?`1` < `2`][0]", "[?`true`]", "*[?'a' == 'a']", "*[*]", "*[]", "*[0]", "*[1:]", "@[?`true`]", "[`1`, @][1]", "{p: `1`, q: @}.q.a", "*.[`1`]",
+	"[*]", "[]", "[0]", "[1:]", "[::-1]", "[?`1`]", "[*][?`true`]", "[][?`true`]",
 }
 
 // c06Gen: every aliasing-prone function applied to every kind of argument
@@ -154,6 +160,44 @@ func H_C06_pure() { c06Pure(c06Exprs) }
 // H_C06_generated: the same obligations over the generated function x argument
 // templates.
 func H_C06_generated() { c06Pure(c06Gen()) }
+
+// H_C06_current: the same obligations for the current-node templates, on an
+// object root and on an array root (small documents: the point is the second,
+// different document).
+func H_C06_current() {
+	k := vrtChoose("expr", len(c06Current))
+	expr := c06Current[k]
+	vrtNote("template:" + expr)
+	vrtSpec(2, 2, 1, "k,x", smASCII, nfInt, 0)
+	vrtNumRange(0, 3)
+	vrtNested(1)
+	var d1, d2 any
+	if vrtBool("arrayroot") {
+		d1 = []any{vrtDoc("e0", 1, uArr|uNil|uJNum, uJNum|uNil), vrtDoc("e1", 1, uArr|uObj|uNil, uJNum)}
+		d2 = []any{[]any{json.Number("3"), nil, json.Number("1")}, json.Number("5"), []any{json.Number("2")}}
+	} else {
+		d1 = map[string]any{"a": vrtDoc("a", 1, uArr|uNil, uJNum|uNil), "b": vrtDoc("b", 1, uObj|uNil|uJNum, uJNum)}
+		d2 = map[string]any{"a": []any{json.Number("3"), nil, json.Number("1")}, "z": map[string]any{"a": json.Number("7")}}
+	}
+	snap1 := deepCopy(d1)
+	e, cerr := Compile(expr)
+	vrtAssert(cerr == nil, "template compiles")
+	if cerr != nil {
+		return
+	}
+	vrtMonitor(true)
+	r1, err1 := e.Search(d1)
+	r2, err2 := e.Search(d2)
+	r3, err3 := e.Search(d1)
+	vrtMonitor(false)
+	vrtAssert(vrtEventCount("sharedwrite") == 0, "a Search call wrote to the document, the compiled expression or a package-level variable")
+	vrtAssert(deepSame(d1, snap1), "Search modified the caller's data")
+	o1, oerr1 := Search(expr, d1)
+	o2, oerr2 := Search(expr, d2)
+	vrtAssert(sameOutcome(r1, err1, o1, oerr1, true), "Expression.Search differs from one-shot Search")
+	vrtAssert(sameOutcome(r2, err2, o2, oerr2, true), "a compiled expression applied to a second document differs from a fresh evaluation of that document")
+	vrtAssert(sameOutcome(r1, err1, r3, err3, true), "the same document gives a different outcome after the expression was applied to other data")
+}
 
 func c06Pure(exprs []string) {
 	k := vrtChoose("expr", len(exprs))
